@@ -36,13 +36,14 @@ var c20Endings = []string{
 	"Close-silent-peer", "concurrent-Close+CloseNow-slow-peer", "concurrent-Close+Close-slow-peer", "netconn-wrong-type+ncClose-slow-peer", "closeread-data+CloseNow",
 	"closeread-cancelled-while-closing+CloseNow/lingering-write", "closeread-closing+CloseNow/lingering-write+transport-close-error",
 	"application-write-in-progress+CloseNow/lingering-write", "application-write-in-progress+Close/lingering-write",
+	"concurrent-Close+CloseNow-unanswering-peer/closeread", "concurrent-Close+CloseNow-unanswering-peer/keeps-sending",
 }
 
 func init() {
 	fw.Register(&fw.Prop{
 		ID:    "C20",
 		Level: "exploration",
-		Rule: "cases = histories from an operation grammar (reads, writes, streamed writes, pings, CloseRead, NetConn with timers, abandoned half-read readers and unclosed writers, peer pings, cancelled reads) on either role, ended in 27 ways (Close / CloseNow / invalid Close arguments / repeated and concurrent closers against a slow peer / peer close, protocol error, context expiry, transport EOF or reset followed by Close or CloseNow / NetConn policy close / CloseNow while the CloseRead goroutine is stuck in a transport write that lingers after the close, with and without an error from the transport's Close). " +
+		Rule: "cases = histories from an operation grammar (reads, writes, streamed writes, pings, CloseRead, NetConn with timers, abandoned half-read readers and unclosed writers, peer pings, cancelled reads) on either role, ended in 29 ways (Close / CloseNow / invalid Close arguments / repeated and concurrent closers against a slow peer / peer close, protocol error, context expiry, transport EOF or reset followed by Close or CloseNow / NetConn policy close / CloseNow while the CloseRead goroutine is stuck in a transport write that lingers after the close, with and without an error from the transport's Close). " +
 			"Oracle: once the last Close/CloseNow has returned and the harness has joined its own goroutines, the goroutine profile must contain no goroutine with a frame in, or created by, nhooyr.io/websocket (300 ms grace for goroutines that are unwinding); histories run one at a time per process so a leak is attributed to its history; in half of the histories the long-lived context handed to CloseRead / NetConn is a Context type of the application's own, and no context-package watcher goroutine for a child derived from it may survive the close. distinct key = (role, ending, set of operation kinds)",
 		Gen:         c20Gen,
 		Race:        func(t string) bool { return t == "thorough" },
@@ -64,7 +65,7 @@ func c20Gen(tier string, seed int64) []fw.Case {
 	reps := tierPick(tier, 25, 250)
 	for rep := 0; rep < reps; rep++ {
 		for ei, ending := range c20Endings {
-			slow := strings.Contains(ending, "slow-peer") || ending == "Close-silent-peer" || strings.Contains(ending, "slow-transport-close") || strings.Contains(ending, "lingering-write")
+			slow := strings.Contains(ending, "slow-peer") || ending == "Close-silent-peer" || strings.Contains(ending, "unanswering-peer") || strings.Contains(ending, "slow-transport-close") || strings.Contains(ending, "lingering-write")
 			if slow && rep%tierPick(tier, 12, 40) != 0 {
 				continue
 			}
@@ -127,7 +128,7 @@ func c20Run(r *fw.R, d c20Desc) {
 	peer.AutoPong = true
 	slow := strings.Contains(d.Ending, "slow-peer")
 	switch {
-	case d.Ending == "Close-silent-peer":
+	case d.Ending == "Close-silent-peer", strings.Contains(d.Ending, "unanswering-peer"):
 	case slow:
 		peer.AutoClose = true
 		peer.CloseDelay = 1500 * time.Millisecond
@@ -355,6 +356,45 @@ func c20Run(r *fw.R, d c20Desc) {
 			r.Violate("C20/goroutine-outlives-closer/"+d.Ending, fmt.Sprintf("%s ops=%v: the second closer returned while %d library goroutine(s) of the connection were still running (the first Close was still waiting for the peer)", d.Role, d.Ops, len(leaked)), leaked[0])
 		}
 		r.Count("profiles_inspected", 1)
+	case "concurrent-Close+CloseNow-unanswering-peer/closeread", "concurrent-Close+CloseNow-unanswering-peer/keeps-sending":
+		// the peer takes the Close frame and never answers it - while a CloseRead goroutine holds the read lock,
+		// or while it keeps sending frames a few hundred ms apart. The first Close gives up within its documented
+		// 5 s + 5 s; the second closer (CloseNow, called a moment after the first) is the one judged: nothing the
+		// library started is still running when it returns.
+		if strings.HasSuffix(d.Ending, "/closeread") && !closeRead && nc == nil {
+			c.CloseRead(libBase)
+			closeRead = true
+		}
+		stopFlood := make(chan struct{})
+		if strings.HasSuffix(d.Ending, "/keeps-sending") {
+			wg.Add(1)
+			go func() {
+				defer wg.Done()
+				for i := 0; ; i++ {
+					select {
+					case <-stopFlood:
+						return
+					case <-time.After(400 * time.Millisecond):
+					}
+					if i%2 == 0 {
+						peer.Send(wire.Ping([]byte("still here")))
+					} else if !closeRead && nc == nil {
+						peer.Send(wire.Data(wire.OpBinary, true, []byte("more data")))
+					}
+				}
+			}()
+		}
+		wg.Add(1)
+		go func() { defer wg.Done(); c.Close(websocket.StatusNormalClosure, "first") }()
+		peer.Wait(5*time.Second, func() bool { return peer.Conf.CloseSeen })
+		time.Sleep(20 * time.Millisecond)
+		c.CloseNow()
+		close(stopFlood)
+		if leaked := waitNoLibGoroutinesExcept(300*time.Millisecond, "(*Conn).Close("); len(leaked) > 0 {
+			r.Violate("C20/goroutine-outlives-closer/"+d.Ending, fmt.Sprintf("%s ops=%v: the second closer returned while %d library goroutine(s) of the connection were still running (the first Close was still waiting for a peer that does not answer)", d.Role, d.Ops, len(leaked)), leaked[0])
+		}
+		r.Count("profiles_inspected", 1)
+		r.Count("second_closers_while_the_first_waits_for_an_unanswering_peer", 1)
 	case "netconn-wrong-type+ncClose-slow-peer":
 		if nc == nil && !closeRead {
 			n := websocket.NetConn(libBase, c, websocket.MessageBinary)
